@@ -975,6 +975,8 @@ func checkC11(r *Run) {
 	c11NoNavigationCache(r)
 	r.Rule("R7", "receiver chains are linked: an identifier built per segment in a loop takes the previously built identifier as its callee", 0)
 	receiverChainRule(r, "R7")
+	r.Rule("R8", "conversions keep the kind: a template-supplied value (a map key) reaches reflect's Convert only under a dominating test that its kind equals the target's kind", 1)
+	convertKindRule(r, "R8")
 }
 
 var _ = fmt.Sprint
